@@ -79,6 +79,12 @@ impl Step {
 
 /// Lengths from here on exceed 0xFFFFFFFA sectors of 4096 bytes.
 pub const UNREPRESENTABLE_LEN: u64 = 1 << 45;
+/// A version 3 directory entry has 32 bits for the stream length.
+pub const V3_UNREPRESENTABLE_LEN: u64 = 1 << 32;
+
+pub fn unrepresentable_len(version: Version, n: u64) -> bool {
+    n >= UNREPRESENTABLE_LEN || (version == Version::V3 && n >= V3_UNREPRESENTABLE_LEN)
+}
 
 /// `HWriteTag` with this tag writes zeros (whole sectors of zeros over existing data are a
 /// case of their own for a writer that treats zero sectors specially).
@@ -757,7 +763,10 @@ impl Session {
             // can number) has no byte-array counterpart: the call must answer with an error -
             // not a panic, not an endless allocation - and change nothing.  (A dirty buffer
             // may be written back by the attempt; the model's content is unaffected by that.)
-            Step::HSetLen { n, .. } if *n >= UNREPRESENTABLE_LEN => match stream.set_len(*n) {
+            // (4 GiB ... 32 TiB: a version 4 file can hold that, and nothing here wants such a
+            // stream: the step is skipped; a version 3 file cannot - next arm)
+            Step::HSetLen { n, .. } if *n >= V3_UNREPRESENTABLE_LEN && *n < UNREPRESENTABLE_LEN && self.version == Version::V4 => Ok(()),
+            Step::HSetLen { n, .. } if unrepresentable_len(self.version, *n) => match stream.set_len(*n) {
                 Ok(()) => mk("Err(_): no compound file can hold that length".into(), "Ok(())".into(), "refuse:unrepresentable_length | ok"),
                 Err(_) => Ok(()),
             },
